@@ -225,6 +225,9 @@ pub fn run_case(case: &Case) -> Outcome {
                 let v1 = match zinc_value_over(&mut r) {
                     Ok(v) => v,
                     Err(e) => {
+                        if has_year_beyond_four_digits(&v0) {
+                            return Err(("C11 pipe-zinc re-decode rejected [timestamp whose year in its zone is beyond 9999]".into(), format!("first encoding {:?} is rejected: {e}", clip(&t1_ref))));
+                        }
                         return Err((
                             format!("C11 pipe-zinc re-decode rejected [{}]", msg_class(&strip_position(&e.to_string()))),
                             format!("first encoding {:?} is rejected: {e}", clip(&t1_ref)),
@@ -264,6 +267,7 @@ pub fn run_case(case: &Case) -> Outcome {
                 let t1s = String::from_utf8_lossy(&t1_ref).into_owned();
                 let v1: Value = match serde_json::from_reader(r) {
                     Ok(v) => v,
+                    Err(e) if has_year_beyond_four_digits(&v0) => return Err(("C11 pipe-json re-decode rejected [timestamp whose year in its zone is beyond 9999]".into(), format!("first encoding {:?} is rejected: {e}", clip(&t1s)))),
                     Err(e) => return Err((format!("C11 pipe-json re-decode rejected [{}]", msg_class(&e.to_string())), format!("first encoding {:?} is rejected: {e}", clip(&t1s)))),
                 };
                 let c1 = canon(&v1);
@@ -445,6 +449,23 @@ fn strip_nonfinite_units(v: &Value) -> Value {
         Value::Number(n) if !n.value.is_finite() && n.unit.is_some() => Some(Value::make_number(n.value)),
         _ => None,
     })
+}
+
+/// Does the value hold a timestamp whose calendar year, seen in its own zone, is outside
+/// 0000..=9999 (e.g. 9999-12-31T05:15:46-11:00 in a zone at +13:00)? Neither format can spell it.
+fn has_year_beyond_four_digits(v: &Value) -> bool {
+    use chrono::Datelike;
+    let found = std::cell::Cell::new(false);
+    let _ = map_leaves(v, &|x| {
+        if let Value::DateTime(dt) = x {
+            let y = dt.naive_local().year();
+            if !(0..=9999).contains(&y) {
+                found.set(true);
+            }
+        }
+        None
+    });
+    found.get()
 }
 
 /// Timestamps whose zone offset at that instant is not a whole number of minutes (local mean
